@@ -652,6 +652,8 @@ var quotedRe = regexp.MustCompile(`"(?:[^"\\]|\\.)*"`)
 
 var constLookupRe = regexp.MustCompile(`@([a-z]+)\.([A-Za-z_][A-Za-z_0-9]*)\[([^\[\]@!#]*)\](?:#[01])?`)
 
+var recvCallRe = regexp.MustCompile(`\(\*([a-z]+)\.([A-Za-z_][A-Za-z_0-9]*)\)\.([A-Za-z_][A-Za-z_0-9]*)\(\$0\)@(\d+)`)
+
 var paramPathRe = regexp.MustCompile(`\$(\d+)((?:\.[A-Za-z_][A-Za-z_0-9]*)*)`)
 
 func (p *PathConds) boolSummaryOf(g *ssa.Function) *boolSummary {
@@ -787,6 +789,15 @@ func (p *PathConds) boolSummaryAny(g *ssa.Function) *boolSummary {
 					}
 					return m
 				})
+				// the result of a read-only method called on the receiver alone (`l.peekChar()`) is a
+				// function of the state the helper was entered in: it can be named in the caller
+				bare = recvCallRe.ReplaceAllStringFunc(bare, func(m string) string {
+					sm := recvCallRe.FindStringSubmatch(m)
+					if h := t.w.Method(sm[1], sm[2], sm[3]); h != nil && t.purity(h) >= purReadOnly && t.purity(g) >= purReadOnly {
+						return "R"
+					}
+					return m
+				})
 				if strings.ContainsAny(bare, "@!#") || strings.Contains(bare, "phi(") || strings.Contains(bare, "mu(") {
 					return nil
 				}
@@ -843,13 +854,20 @@ func (p *PathConds) substSummary(call *ssa.Call, src []conj) (out []conj, ok boo
 			return term
 		})
 	}
+	site := p.t.callOrd[call]
+	virt := func(l string) string {
+		if !strings.Contains(l, "($0)@") {
+			return l
+		}
+		return recvCallRe.ReplaceAllString(l, "(*$1.$2).$3($$0)@v"+strconv.Itoa(site)+"x$4")
+	}
 	ok = true
 	for _, c := range src {
 		var n conj
 		good := true
 		for _, l := range c {
 			var g2 bool
-			n, g2 = conjAdd(n, normLit(foldPlus(subst(l))))
+			n, g2 = conjAdd(n, normLit(foldPlus(subst(virt(l)))))
 			if !g2 {
 				good = false
 				break
@@ -1303,4 +1321,54 @@ func (p *PathConds) expandCompare(bo *ssa.BinOp, want bool) ([]conj, bool) {
 // emptiness test `0 < len(x)` that `len(x) == 0` and `len(x) > 0` are normalised to.
 func isRangeTest(a string) bool {
 	return strings.Contains(a, " < builtin:len(") && !strings.HasPrefix(a, "(0 < builtin:len(")
+}
+
+var opaqueAtomRe = regexp.MustCompile(`^([a-z]+)\.([A-Za-z_][A-Za-z_0-9]*)\((.*)\)$`)
+
+// openPredicates rewrites atoms that are calls of opaque one-argument repo predicates
+// (`lexer.isWhitespace(ch)`) into their definitions, for rules that state a condition as a set
+// of values and must not care whether the set is spelled in place or in a predicate.
+func (p *PathConds) openPredicates(d dnf) dnf {
+	if d.unknown {
+		return d
+	}
+	out := dnf{}
+	for _, cj := range d.cs {
+		alts := []conj{{}}
+		for _, l := range cj {
+			var repl []conj
+			if m := opaqueAtomRe.FindStringSubmatch(l[1:]); m != nil && balanced(m[3]) && !strings.Contains(m[3], ",") {
+				if g := p.t.w.Func(m[1], m[2]); g != nil && len(g.Params) == 1 {
+					if sum := p.boolSummaryAny(g); sum != nil {
+						src := sum.pos
+						if l[0] == '-' {
+							src = sum.neg
+						}
+						for _, sc := range src {
+							var n conj
+							for _, sl := range sc {
+								n = append(n, normLit(sl[:1]+strings.ReplaceAll(sl[1:], "$0", m[3])))
+							}
+							repl = append(repl, n)
+						}
+					}
+				}
+			}
+			if repl == nil {
+				repl = []conj{{l}}
+			}
+			var next []conj
+			for _, a := range alts {
+				for _, r := range repl {
+					if m2, ok := conjMerge(a, r); ok {
+						next = append(next, m2)
+					}
+				}
+			}
+			alts = next
+		}
+		out.cs = append(out.cs, alts...)
+	}
+	out.cs = simplify(out.cs)
+	return out
 }
